@@ -46,7 +46,7 @@ fn run_tables(cases: &str, out: &str, opt: &HashMap<String, String>) {
     let dev: Vec<String> = std::env::var("VERIF_DEV").unwrap_or_default().split(',').filter(|x| !x.is_empty()).map(|x| x.to_string()).collect();
     let f = std::fs::File::open(cases).expect("cases file");
     let mut w = std::io::BufWriter::new(std::fs::File::create(out).expect("out file"));
-    writeln!(w, "{}", json!({"t":"meta","tables":tables,"tier":tier,"seed":seed,"inst":inst,"dev":dev})).unwrap();
+    writeln!(w, "{}", json!({"t":"meta","tables":tables,"tier":tier,"seed":seed,"inst":inst,"dev":dev,"partial":only.is_some() || opt.contains_key("partial")})).unwrap();
     if std::env::var("VERIF_PANICS").is_err() { std::panic::set_hook(Box::new(|_| {})); }
     let world = t_media::MediaWorld::new();
     let mut n = 0u64;
@@ -67,7 +67,11 @@ fn run_tables(cases: &str, out: &str, opt: &HashMap<String, String>) {
                 continue;
             }
         }
+        let only_inst: Option<u64> = opt.get("only_inst").map(|s| s.parse().unwrap());
         for i in 0..inst {
+            if only_inst.is_some_and(|x| x != i) {
+                continue;
+            }
             let mut r = generate::rng_for(seed, &key, i);
             let res = catch_unwind(AssertUnwindSafe(|| match t.as_str() {
                 "ext" => t_ext::run_decode(&mut r, &shape),
